@@ -36,6 +36,11 @@ fn parse_route(route: &str) -> (u64, usize, Option<usize>) {
     (n, b, h)
 }
 
+/// status the handler answers with: optional 4th segment `/s<code>` of the route
+fn route_status(route: &str) -> u16 {
+    route.split('/').nth(4).and_then(|s| s.strip_prefix('s')).and_then(|s| s.parse().ok()).unwrap_or(200)
+}
+
 fn near(r: &mut impl Rng, limits: &[usize], floor: usize) -> (usize, bool) {
     if limits.is_empty() || r.gen_bool(0.25) {
         return (floor + r.gen_range(0..64), false);
@@ -94,6 +99,9 @@ fn run(input: RunInput) -> ScenFuture {
         let plan: PlanFn = Arc::new(move |req: &Request<Bytes>| {
             let (n, b, h) = parse_route(req.route());
             let mut resp = Response::new(body_for(seed, n, b, 0xBB));
+            if let Ok(st) = anemo::types::response::StatusCode::new(route_status(req.route())) {
+                resp = resp.with_status(st);
+            }
             if let Some(pad) = h {
                 resp = resp.with_header("p", "x".repeat(pad));
             }
@@ -144,7 +152,10 @@ fn run(input: RunInput) -> ScenFuture {
             // response header: either exactly RESP_BASE (no entry) or RESP_BASE + PAD_ENTRY + pad
             let resp_pad = (hr > 0).then(|| hr - RESP_BASE - PAD_ENTRY);
             let hr_size = resp_pad.map(|p| RESP_BASE + PAD_ENTRY + p).unwrap_or(RESP_BASE);
-            let route = format!("/n{i}/b{br}/h{}", resp_pad.map(|p| p.to_string()).unwrap_or_else(|| "-".into()));
+            // (the limits are about sizes: a response that is not a success - with a body - is
+            // limited, refused and delivered like any other)
+            let status: u16 = if r.gen_bool(0.7) { 200 } else { [400u16, 404, 408, 429, 500, 520][r.gen_range(0..6)] };
+            let route = format!("/n{i}/b{br}/h{}{}", resp_pad.map(|p| p.to_string()).unwrap_or_else(|| "-".into()), if status == 200 { String::new() } else { format!("/s{status}") });
             let req_pad = (hq > 0).then(|| hq.saturating_sub(REQ_BASE + route.len() + PAD_ENTRY + added_entry));
             let hq_size = REQ_BASE + route.len() + req_pad.map(|p| PAD_ENTRY + p).unwrap_or(0) + added_entry;
             let mut req = Request::new(body_for(seed, i, bq, 0xAA)).with_route(route.clone());
@@ -203,7 +214,7 @@ fn run(input: RunInput) -> ScenFuture {
                 Ok(resp) => {
                     if verdict != "delivered" {
                         w.violate("over-limit-but-delivered", key.clone(), format!("rpc {i}: model verdict {verdict} (req header {hq_size} body {bq}, resp header {hr_size} body {br}, limits caller {lc:?} callee {ls:?}) but the call succeeded"));
-                    } else if resp.body() != &body_for(seed, i, br, 0xBB) || resp.headers().get("p").map(|p| p.len()) != resp_pad {
+                    } else if resp.body() != &body_for(seed, i, br, 0xBB) || resp.headers().get("p").map(|p| p.len()) != resp_pad || resp.status().to_u16() != status {
                         w.violate("delivered-not-intact", key.clone(), format!("rpc {i}: response differs from what the handler produced"));
                     }
                 }
